@@ -63,6 +63,13 @@ func (w *recWriter) Write(p []byte) (int, error) {
 		w.firedAt = append(w.firedAt, idx)
 		return 0, errInjected
 	}
+	// a writer that takes the bytes and reports the failure with the full count (a tee, a sink with a deferred error): io.Writer allows it
+	if w.fault != nil && ((w.fault.Mode == "oncefull" && idx == w.fault.At) || (w.fault.Mode == "permfull" && idx >= w.fault.At)) {
+		w.fired++
+		w.firedAt = append(w.firedAt, idx)
+		w.buf.Write(p)
+		return len(p), errInjected
+	}
 	return w.buf.Write(p)
 }
 
